@@ -39,6 +39,38 @@ def check(run, prog, tier):
     rule_B(run, prog)
     rule_C(run, prog)
     rule_D(run, prog)
+    run.rule("C11-E", "the Hamiltonian and dipole operators handed to the calculator do not share storage with "
+                      "arrays the aggregate rewrites in place", minimum=2)
+    rule_E(run, prog)
+
+
+def rule_E(run, prog):
+    """The calculator transforms the operators it gets from the aggregate (get_Hamiltonian /
+    get_TransitionDipoleMoment) exactly once into the eigenbasis.  That is correct only if these
+    objects are in the site representation they were built in; Aggregate.diagonalize() rewrites the
+    aggregate's working arrays element-wise, so an operator built on top of such an array (no copy)
+    silently changes representation and the line strengths become |(S^T S^T d)|^2."""
+    from ..effects import shared_operator_storage
+    rid = "C11-E"
+    cls = prog.cls("quantarhei.builders.aggregate_base.AggregateBase")
+    pairs = shared_operator_storage(prog, cls)
+    # operators built in _build without sharing are instances too: count the constructions examined
+    b = prog.func("quantarhei.builders.aggregate_base.AggregateBase._build")
+    built = [n for n in ast.walk(b.node) if isinstance(n, ast.Assign) and isinstance(n.value, ast.Call)
+             and call_name(n.value) in ("Hamiltonian", "TransitionDipoleMoment")]
+    if len(built) < 2:
+        raise AnalysisError("_build: construction of the Hamiltonian and dipole operators not found")
+    shared = {id(n): (obj, arr, wr) for f, n, obj, arr, wr in pairs}
+    for n in built:
+        obj, arr, wr = shared.get(id(n), (norm(n.targets[0]), None, []))
+        ok = not wr
+        run.obligation(rid, "AggregateBase._build:" + call_name(n.value), ok, key="owns-storage",
+                       message="%s is built on the array kept as self.%s, which %s rewrites in place (%s): the "
+                               "operator changes representation behind the calculator's back"
+                               % (norm(n.targets[0]), arr, sorted({w[0].short for w in wr}),
+                                  norm(wr[0][1])[:60] if wr else ""),
+                       loc=b.loc(n), sample={"operator": call_name(n.value), "shares_array": arr,
+                                             "in_place_writers": len(wr)})
 
 
 def rule_A(run, prog):
